@@ -732,7 +732,14 @@ def _binarize_tree(tree, bare_bin_labels):
             binarization_tree = trees.Tree(trees.make_node_data_fill())
             label_no_coindex = trees.parse_label(label)
             label_no_coindex.coindex = ""
-            label_no_coindex = trees.format_label(label_no_coindex)
+            if label_no_coindex.label == trees.DEFAULT_LABEL \
+               and label.startswith(trees.DEFAULT_LABEL):
+                # a category that is literally the default label is
+                # otherwise dropped by format_label
+                label_no_coindex = trees.format_label(label_no_coindex,
+                                                      always_label=True)
+            else:
+                label_no_coindex = trees.format_label(label_no_coindex)
             binarization_tree.data['label'] = '@'
             if not bare_bin_labels:
                 binarization_tree.data['label'] += label_no_coindex
